@@ -262,6 +262,7 @@ def native_once(w=None):
     lib = {"lib": "{% macro lm(x) %}[{{ x }}]{% endmacro %}", "base": "<{% block b %}B{{ v }}{% endblock %}>{{ self.b() }}{% block c %}{% endblock %}",
            "inc": "I{{ v }}{% set q %}{{ v }}{% endset %}{{ q }}", "mid": "{% extends 'base' %}{% block b %}m{{ super() }}{{ v }}{% endblock %}"}
     srcs = ["{{ v }}{{ 'a' }}{{ v ~ v }}x{{ [v]|join }}",
+            "{{ '<&amp;' }}|{{ '<' ~ '&amp;' }}|{{ ('<&amp;', v)|join }}",
             "{% macro m(x) %}({{ x }}){% endmacro %}{{ m(v) }}{{ m(m(v)) }}",
             "{% macro m() %}{{ caller() }}{% endmacro %}{% call m() %}{{ v }}{% endcall %}",
             "{% macro m() %}{{ caller(v) }}{% endmacro %}{% call(y) m() %}{{ y }}{{ v }}{% endcall %}",
@@ -288,6 +289,20 @@ def native_once(w=None):
                         problems.append(f"{src} (autoescape={ae}, async={is_async}): {type(ex).__name__}: {ex}")
                 if len(outs) == 2 and html.unescape(outs[True]) != outs[False]:
                     problems.append(f"{src!r} (async={is_async}): unescape(on) = {html.unescape(outs[True])!r} but off = {outs[False]!r} (on rendered {outs[True]!r})")
+                # the same decided at run time: {% autoescape x %} with x true / false (literals with metacharacters left out:
+                # compile-time constants in a volatile frame are C15.output.wrap's known finding, DESIGN F2)
+                if "extends" in src or "'<" in src or "import" in src or "include" in src or "{% block" in src:  # blocks: C15.buffer.inv.visit_Block finding
+                    continue
+                outs = {}
+                for x in (True, False):
+                    env = Environment(autoescape=False, loader=DictLoader(lib), enable_async=is_async, finalize=fin)
+                    try:
+                        t = env.from_string("{% autoescape x %}" + src + "{% endautoescape %}")
+                        outs[x] = asyncio.run(t.render_async(v=DATA, x=x)) if is_async else t.render(v=DATA, x=x)
+                    except Exception as ex:
+                        problems.append(f"volatile {src} (x={x}, async={is_async}): {type(ex).__name__}: {ex}")
+                if len(outs) == 2 and html.unescape(outs[True]) != outs[False]:
+                    problems.append(f"{{% autoescape x %}}{src!r} (async={is_async}): unescape(x=True) = {html.unescape(outs[True])!r} but x=False = {outs[False]!r}")
     return (bool(problems), "; ".join(problems[:3]) or "unescape(render on) == render off on the escaping-neutral template family")
 
 
